@@ -201,6 +201,9 @@ struct colvars_verif_access {
   static colvar_grid_count *abf_samples(colvarbias_abf *b) { return b->samples.get(); }
   static colvar_grid_gradient *abf_gradients(colvarbias_abf *b) { return b->gradients.get(); }
   static std::vector<colvarvalue> const &bias_forces(colvarbias *b) { return b->colvar_forces; }
+  // PMF integration (C16)
+  static integrate_potential *abf_pmf(colvarbias_abf *b) { return b->pmf.get(); }
+  static std::vector<cvm::real> &pot_divergence(integrate_potential *p) { return p->divergence; }
   // extended-Lagrangian coordinate (C17)
   static double ext_x(colvar *c) { return c->x_ext.real_value; }
   static double ext_v(colvar *c) { return c->v_ext.real_value; }
